@@ -1,4 +1,4 @@
 SPECIFICATION Spec
-CONSTANT Positions = {"ret_after_lit", "closurearg", "append", "let", "assign", "arg", "ret", "field", "optional", "elem"}
+CONSTANT Positions = {"coalesce", "catchfallback", "ret_after_lit", "closurearg", "append", "let", "assign", "arg", "ret", "field", "optional", "elem"}
 INVARIANT EmitCase
 CHECK_DEADLOCK FALSE
